@@ -30,6 +30,8 @@ type SolverStats struct {
 	Errors              int
 	Time                time.Duration
 	Fallbacks           int
+	Restarts            int
+	Slow                int
 }
 
 type Solver struct {
@@ -178,7 +180,16 @@ func (s *Solver) Check(extra *Term, vars []*Term) (Verdict, map[string]uint64) {
 		return Unsat, nil
 	}
 	t0 := time.Now()
-	defer func() { s.stats.Time += time.Since(t0) }()
+	defer func() {
+		d := time.Since(t0)
+		s.stats.Time += d
+		if d > 2*time.Second {
+			s.stats.Slow++
+			if os.Getenv("GOSYM_SLOWQ") != "" && extra != nil {
+				fmt.Fprintf(os.Stderr, "slow query %.1fs: %s\n", d.Seconds(), extra.String())
+			}
+		}
+	}()
 	if extra != nil {
 		s.define(extra)
 	}
@@ -204,8 +215,13 @@ func (s *Solver) Check(extra *Term, vars []*Term) (Verdict, map[string]uint64) {
 			v, model = fv, fm
 			s.stats.Fallbacks++
 		}
+		// a timeout or error can leave the solver's assertion stack in an
+		// undefined state ("push canceled"): start a fresh process and replay
+		// this path's script into it
+		s.restartAndReplay()
+	} else {
+		s.raw("(pop 1)")
 	}
-	s.raw("(pop 1)")
 	switch v {
 	case Sat:
 		s.stats.Sat++
@@ -215,6 +231,16 @@ func (s *Solver) Check(extra *Term, vars []*Term) (Verdict, map[string]uint64) {
 		s.stats.Unknown++
 	}
 	return v, model
+}
+
+func (s *Solver) restartAndReplay() {
+	s.Close()
+	s.start()
+	s.raw("(push 1)")
+	for _, l := range s.script {
+		s.raw(l)
+	}
+	s.stats.Restarts++
 }
 
 func (s *Solver) readVerdict() Verdict {
@@ -342,9 +368,9 @@ func (s *Solver) fallback(extra *Term, vars []*Term) (Verdict, map[string]uint64
 		args := solverArgs[name]
 		var cmd *exec.Cmd
 		if name == "cvc5" {
-			cmd = exec.Command(args[0], append(args[1:], fmt.Sprintf("--tlimit=%d", s.timeout*3))...)
+			cmd = exec.Command(args[0], append(args[1:], fmt.Sprintf("--tlimit=%d", s.timeout))...)
 		} else {
-			cmd = exec.Command(args[0], append(args[1:], fmt.Sprintf("-t:%d", s.timeout*3))...)
+			cmd = exec.Command(args[0], append(args[1:], fmt.Sprintf("-t:%d", s.timeout))...)
 		}
 		text := sb.String()
 		if name == "cvc5" {
@@ -373,4 +399,65 @@ func (s *Solver) fallback(extra *Term, vars []*Term) (Verdict, map[string]uint64
 		}
 	}
 	return Unknown, nil
+}
+
+// termScript returns declarations/definitions for everything below the roots,
+// independent of any solver's scope bookkeeping.
+func termScript(roots ...*Term) []string {
+	var out []string
+	seen := map[*Term]bool{}
+	var visit func(t *Term)
+	visit = func(t *Term) {
+		if t == nil || seen[t] || t.op == OpConst {
+			return
+		}
+		seen[t] = true
+		visit(t.a)
+		visit(t.b)
+		visit(t.c)
+		if t.op == OpVar {
+			out = append(out, fmt.Sprintf("(declare-const %s %s)", t.name, sortStr(t.w)))
+		} else {
+			out = append(out, fmt.Sprintf("(define-fun t%d () %s %s)", t.id, sortStr(t.w), t.body()))
+		}
+	}
+	for _, r := range roots {
+		visit(r)
+	}
+	return out
+}
+
+// CheckStandalone decides the conjunction of the given terms in a scope of its
+// own (nothing of the current path is visible).
+func (s *Solver) CheckStandalone(terms ...*Term) Verdict {
+	if s.dead {
+		s.Close()
+		s.start()
+	}
+	t0 := time.Now()
+	defer func() { s.stats.Time += time.Since(t0) }()
+	s.raw("(push 1)")
+	for _, l := range termScript(terms...) {
+		s.raw(l)
+	}
+	for _, t := range terms {
+		s.raw("(assert " + t.ref() + ")")
+	}
+	s.raw("(check-sat)")
+	v := s.readVerdict()
+	if v == Unknown {
+		s.Close()
+		s.start()
+	} else {
+		s.raw("(pop 1)")
+	}
+	switch v {
+	case Sat:
+		s.stats.Sat++
+	case Unsat:
+		s.stats.Unsat++
+	default:
+		s.stats.Unknown++
+	}
+	return v
 }
